@@ -116,7 +116,7 @@ def generate(rng, index, tier):
         # a launch (or fault, or sample) window holding thousands of unrelated same-thread records before its nested ones
         n = worlds.LONG_SIZES[(index // 983) % len(worlds.LONG_SIZES)]
         if (index // 983) % 3 == 2:
-            n = worlds.dict_size(rng, 70000 if tier == 'quick' else 270000) or n      # right at a count the source names
+            n = worlds.dict_size(rng, 70000 if tier == 'quick' else 270000, k=(index // 983) // 3) or n      # right at a count the source names
         op = [_launch, _fault, lambda r: _sample(r, 600)][(index // 983) % 3](rng)
         filler = worlds.op_single(rng, 'MACH_MKRUNNABLE')
         op['in'] = [dict(filler) for _ in range(n)] + op['in']
